@@ -6,6 +6,10 @@ Bases == << [name |-> "northup", A |-> <<10, 0, 100, 0, -10, 200>>, carrier |-> 
             [name |-> "nonsquare_geo", A |-> <<2, 0, 10, 0, -1, 50>>, carrier |-> "labels"],
             [name |-> "rot90", A |-> <<0, 10, 100, 10, 0, 200>>, carrier |-> "transform"], [name |-> "pythag", A |-> <<6, -8, 100, 8, 6, 200>>, carrier |-> "transform"],
             [name |-> "sheared", A |-> <<10, 5, 100, 0, -10, 200>>, carrier |-> "transform"], [name |-> "gcp_affine", A |-> <<6, -8, 100, 8, 6, 200>>, carrier |-> "gcp"],
+            \* the same registration written the other ways the recovery understands: CF (crs_wkt on the CRS coordinate), CRS in the array's attributes
+            \* and no CRS coordinate at all, two CRS coordinates naming the same CRS
+            [name |-> "northup_cf", A |-> <<10, 0, 100, 0, -10, 200>>, carrier |-> "labels"], [name |-> "mirrored_attrs", A |-> <<-10, 0, 100, 0, 20, 200>>, carrier |-> "labels"],
+            [name |-> "northup_two_crs_coords", A |-> <<10, 0, 100, 0, -10, 200>>, carrier |-> "labels"],
             \* the same registration carried by a GCP box that is itself a view (cropped / zoomed: non-identity pixel affine) of its control points
             [name |-> "gcp_view_cropped", A |-> <<6, -8, 100, 8, 6, 200>>, carrier |-> "gcp"], [name |-> "gcp_view_zoomed", A |-> <<6, -8, 100, 8, 6, 200>>, carrier |-> "gcp"] >>
 Containers == << [container |-> "DataArray", backend |-> "numpy", dims |-> "yx"], [container |-> "DataArray", backend |-> "dask", dims |-> "tyx"],
